@@ -62,6 +62,7 @@ class Scheduler:
         self.record = False
         self.in_critical = {}  # thread idx -> depth inside "critical" functions (for non-triviality)
         self.critical_functions = set()
+        self.only_functions = None  # when set: yield points only at the lines of functions with these names
         self.preempted_inside_critical = False
 
     # -- lock factory -------------------------------------------------------
@@ -144,6 +145,8 @@ class Scheduler:
     def _global_trace(self, frame, event, arg):
         fn = frame.f_code.co_filename
         if fn.endswith(self.files):
+            if self.only_functions is not None and frame.f_code.co_name not in self.only_functions:
+                return None
             if frame.f_code.co_name in self.opcode_functions:
                 frame.f_trace_opcodes = True
             if frame.f_code.co_name in self.critical_functions:
